@@ -1086,3 +1086,701 @@ Section Main2.
           -- rewrite after_gone_nogone by exact G3. simpl. rewrite forallb_app, X1. reflexivity.
   Qed.
 End Main2.
+
+(** ** from the invariant to the rules of the Spec *)
+
+(** events j+1 .. j+k, head first *)
+Fixpoint evs_from (id : N) (n j k : nat) : list sframe :=
+  match k with 0 => [] | S k' => SData id (CEv n (S j)) :: evs_from id n (S j) k' end.
+Lemma evs_from_snoc id n k : forall j, evs_from id n j (S k) = evs_from id n j k ++ [SData id (CEv n (S (j + k)))].
+Proof.
+  induction k as [|k IH]; intro j; simpl.
+  - now rewrite Nat.add_0_r.
+  - f_equal. specialize (IH (S j)). simpl in IH. rewrite IH. now rewrite Nat.add_succ_r.
+Qed.
+Lemma evs_is_from id n k : evs id n k = evs_from id n 0 k.
+Proof. induction k as [|k IH]; [reflexivity|]. rewrite evs_from_snoc. simpl. now rewrite IH. Qed.
+
+Lemma chk_sub_frames_evs id n c tl k : forall j,
+  chk_sub_frames id n (j + k) c tl = true -> chk_sub_frames id n j c (evs_from id n j k ++ tl) = true.
+Proof.
+  induction k as [|k IH]; intros j H; simpl.
+  - now rewrite Nat.add_0_r in H.
+  - rewrite N.eqb_refl, !Nat.eqb_refl. simpl. apply IH. now rewrite Nat.add_succ_r in H.
+Qed.
+
+Lemma existsb_live_part P t : existsb P (live_part t) = true -> existsb P t = true.
+Proof.
+  induction t as [|e t IH]; simpl; [auto|].
+  destruct e; simpl; intro H; try discriminate; apply orb_true_iff in H as [H|H]; rewrite ?H, ?orb_true_r; auto;
+    rewrite IH by exact H; apply orb_true_r.
+Qed.
+
+Lemma stopped_or_ended_counts n t :
+  stopped_or_ended n t = Nat.ltb 0 (count (is_stop n) t + count (is_srcend n) t).
+Proof.
+  unfold stopped_or_ended. induction t as [|e t IH]; [reflexivity|]. simpl. rewrite IH. unfold count. simpl.
+  destruct (is_stop n e) eqn:A; destruct (is_srcend n e) eqn:B; simpl; try reflexivity.
+  rewrite Nat.add_succ_r. reflexivity.
+Qed.
+
+Lemma subscribed_has_source c m l t n :
+  InvC c m l t -> 0 < count (is_subscribe n) t + count (is_stop n) t + count (is_srcend n) t ->
+  exists x, In x l /\ s_op x = n.
+Proof.
+  intros I H.
+  assert (exists e, In e t /\ ev_op e = Some n) as (e & He & Eo).
+  { assert (X : 0 < count (is_subscribe n) t \/ 0 < count (is_stop n) t \/ 0 < count (is_srcend n) t) by lia.
+    destruct X as [X|[X|X]]; apply count_pos_iff in X as (e & He & Pe); exists e; split; auto;
+      destruct e; simpl in Pe; try discriminate; apply Nat.eqb_eq in Pe; now subst. }
+  pose proof (i_owner _ _ _ _ I e n He Eo) as St. apply count_pos_iff in St as (e' & He' & Pe').
+  destruct e'; simpl in Pe'; try discriminate. apply Nat.eqb_eq in Pe'. subst n0.
+  pose proof (i_started _ _ _ _ I n id d He') as SO. unfold start_ok in SO.
+  destruct d; try (unfold view in SO; injection SO as _ _ E3 _ E5 E6 _; lia).
+  - destruct SO as [(x & Hx & Ex & _)|SO]; [eauto|]. unfold view in SO. injection SO as _ _ E3 _ E5 E6 _. lia.
+  - destruct SO as [SO|SO]; unfold view in SO; injection SO as _ _ E3 _ E5 E6 _; lia.
+Qed.
+
+Definition well_owned (e : ev) : bool :=
+  match e with
+  | VSend (SData _ _) None | VSend (SComplete _) None => false
+  | VSend SAck (Some _) | VSend SKa (Some _) | VSend SConnError (Some _) | VSend SPong (Some _) => false
+  | _ => true
+  end.
+
+Theorem inv_chk_ops c m l t : InvC c m l t -> forallb well_owned t = true -> chk_ops t = true.
+Proof.
+  intros I WO. unfold chk_ops. apply forallb_forall. intros e He.
+  assert (Own : forall n, ev_op e = Some n -> existsb (is_start n) t = true).
+  { intros n E. rewrite existsb_count. apply Nat.ltb_lt. eapply i_owner; eauto. }
+  assert (Src : forall n, ev_op e = Some n -> (is_stop n e = true \/ is_srcend n e = true) -> Nat.ltb 0 (count (is_subscribe n) t) = true).
+  { intros n E P. apply Nat.ltb_lt.
+    destruct (subscribed_has_source _ _ _ _ n I) as (x & Hx & Ex).
+    - assert (0 < count (is_stop n) t + count (is_srcend n) t); [|lia].
+      destruct P as [P|P]; [assert (0 < count (is_stop n) t)|assert (0 < count (is_srcend n) t)]; try lia;
+        apply count_pos_iff; eauto.
+    - destruct (i_src _ _ _ _ I x Hx) as (_ & _ & V). unfold view in V. rewrite Ex in V. injection V as _ _ E3 _ _ _ _. lia. }
+  destruct e as [f|f [k|]|b|n id d|n|n|n|n|n|z| |]; simpl; auto;
+    try (apply Own; reflexivity); try (apply Src; [reflexivity|simpl; rewrite Nat.eqb_refl; auto]).
+  - (* owned frame *) destruct f; try (apply Own; reflexivity);
+      apply (proj1 (forallb_forall _ _) WO) in He; discriminate.
+  - (* unowned frame *) destruct f; auto; apply (proj1 (forallb_forall _ _) WO) in He; discriminate.
+  - (* a start *)
+    pose proof (i_started _ _ _ _ I n id d He) as SO. unfold start_ok in SO.
+    destruct d.
+    + unfold view in SO. injection SO as -> -> -> -> _ _ Ow. unfold answered. rewrite Ow. simpl.
+      now rewrite N.eqb_refl, !Nat.eqb_refl.
+    + unfold view in SO. injection SO as -> -> -> -> _ _ Ow. unfold answered. rewrite Ow. simpl.
+      now rewrite N.eqb_refl, !Nat.eqb_refl.
+    + destruct SO as [(x & Hx & Ex & Eid)|SO].
+      * destruct (i_src _ _ _ _ I x Hx) as (_ & B & V). rewrite Ex, Eid in V. unfold view in V.
+        injection V as -> -> -> -> Es Ee Ow. simpl. rewrite Ow, evs_is_from.
+        apply chk_sub_frames_evs. unfold tail_of, completion.
+        assert (SE : stopped_or_ended n t = negb (live x)).
+        { rewrite stopped_or_ended_counts, Es, Ee. unfold live.
+          destruct (s_stops x) as [|k]; destruct (s_ended x); reflexivity. }
+        destruct (live x) eqn:Lv; simpl in SE.
+        -- destruct (stopped_or_ended n (live_part t)) eqn:X.
+           ++ apply existsb_live_part in X. unfold stopped_or_ended in SE. congruence.
+           ++ rewrite SE. reflexivity.
+        -- rewrite SE. destruct (stopped_or_ended n (live_part t)); cbn [chk_sub_frames]; rewrite Eid, N.eqb_refl; reflexivity.
+      * unfold view in SO. injection SO as -> -> -> -> _ _ ->. reflexivity.
+    + destruct SO as [SO|SO]; unfold view in SO; injection SO as -> -> -> -> _ _ Ow; simpl; [|now rewrite Ow].
+      unfold answered. rewrite Ow. simpl. now rewrite N.eqb_refl.
+    + unfold view in SO. injection SO as -> -> -> -> _ _ Ow. unfold answered. rewrite Ow. simpl.
+      now rewrite N.eqb_refl.
+Qed.
+
+Theorem inv_chk_stops s t : Inv s t -> CloseInv s t -> chk_stops t = true.
+Proof.
+  intros I [C0 C1]. unfold chk_stops. apply forallb_forall. intros e He.
+  destruct e; simpl; auto.
+  destruct (subscribed_has_source _ _ _ _ n I) as (x & Hx & Ex).
+  { assert (0 < count (is_subscribe n) t); [|lia]. apply count_pos_iff. exists (VSubscribe n). split; [exact He|].
+    simpl. apply Nat.eqb_refl. }
+  destruct (i_src _ _ _ _ I x Hx) as (_ & B & V). unfold view in V. rewrite Ex in V. injection V as _ _ _ _ Es _ _.
+  rewrite Es. destruct (existsb is_dereg t) eqn:D.
+  - apply Nat.eqb_eq. destruct (closed s) eqn:Cl.
+    + destruct (C1 eq_refl) as (_ & Sb & _).
+      destruct (Nat.eq_dec (s_stops x) 0) as [Z|Z]; [|lia].
+      pose proof (i_unstopped _ _ _ _ I x Hx Z) as X. rewrite Sb in X. destruct X.
+    + destruct (C0 eq_refl) as (_ & _ & D0). rewrite existsb_count, D0 in D. discriminate.
+  - now apply Nat.leb_le.
+Qed.
+
+Theorem inv_chk_dereg s t : CloseInv s t -> chk_dereg t = true.
+Proof.
+  intros [C0 C1]. unfold chk_dereg. destruct (closed s) eqn:Cl.
+  - destruct (C1 eq_refl) as (_ & _ & G & D & L & A). rewrite existsb_count, G, D, L, A. reflexivity.
+  - destruct (C0 eq_refl) as (_ & G & D). rewrite existsb_count, G, D. reflexivity.
+Qed.
+
+(** ** the shape of what one step puts on the trace *)
+
+(** events of operations, each with an owner *)
+Definition opish (e : ev) : bool :=
+  match e with
+  | VSend (SData _ _) (Some _) | VSend (SComplete _) (Some _)
+  | VStart _ _ _ | VExec _ | VSubscribe _ | VSubFail _ | VSrcEnd _ | VStop _ => true
+  | _ => false
+  end.
+
+Lemma stop_src_opish n l l' o : stop_src n l = (l', o) -> forallb opish o = true.
+Proof.
+  revert l' o. induction l as [|x l IH]; simpl; intros l' o H.
+  - now injection H as <- <-.
+  - destruct (Nat.eqb (s_op x) n).
+    + injection H as <- <-. destruct (live x); reflexivity.
+    + destruct (stop_src n l) as [r o']. injection H as <- <-. eapply IH. reflexivity.
+Qed.
+Lemma emit_src_opish n l l' o : emit_src n l = (l', o) -> forallb opish o = true.
+Proof.
+  revert l' o. induction l as [|x l IH]; simpl; intros l' o H.
+  - now injection H as <- <-.
+  - destruct (Nat.eqb (s_op x) n).
+    + destruct (live x); injection H as <- <-; reflexivity.
+    + destruct (emit_src n l) as [r o']. injection H as <- <-. eapply IH. reflexivity.
+Qed.
+Lemma end_src_opish n l l' o : end_src n l = (l', o) -> forallb opish o = true.
+Proof.
+  revert l' o. induction l as [|x l IH]; simpl; intros l' o H.
+  - now injection H as <- <-.
+  - destruct (Nat.eqb (s_op x) n).
+    + destruct (s_ended x); injection H as <- <-; [reflexivity|]. destruct (live x); reflexivity.
+    + destruct (end_src n l) as [r o']. injection H as <- <-. eapply IH. reflexivity.
+Qed.
+Lemma stop_all_opish m : forall l l' o, stop_all m l = (l', o) -> forallb opish o = true.
+Proof.
+  induction m as [|[id n] m IH]; simpl; intros l l' o H.
+  - now injection H as <- <-.
+  - destruct (stop_src n l) as [l1 o1] eqn:S1. destruct (stop_all m l1) as [l2 o2] eqn:S2. injection H as <- <-.
+    rewrite forallb_app, (stop_src_opish _ _ _ _ S1), (IH _ _ _ S2). reflexivity.
+Qed.
+Lemma handle_stop_opish s id s' o : handle_stop s id = (s', o) -> forallb opish o = true /\ did_init s' = did_init s.
+Proof.
+  unfold handle_stop. destruct (lookup id (subs s)).
+  - destruct (stop_src n (srcs s)) as [l o'] eqn:S. intro H. injection H as <- <-. split; [|reflexivity].
+    eapply stop_src_opish; eauto.
+  - intro H. injection H as <- <-. auto.
+Qed.
+Lemma handle_start_opish ks s id d s' o :
+  handle_start ks s id d = (s', o) -> forallb opish o = true /\ did_init s' = did_init s.
+Proof.
+  assert (R : forall s1 o1, release_ended ks s id = (s1, o1) -> forallb opish o1 = true /\ did_init s1 = did_init s).
+  { intros s1 o1 H. destruct (release_ended_cases _ _ _ _ _ H) as [[-> ->]|(HS & _)]; [auto|].
+    now apply handle_stop_opish in HS. }
+  unfold handle_start. destruct d; try (intro H; injection H as <- <-; auto).
+  - destruct (release_ended ks s id) as [s1 o1] eqn:E. destruct (R _ _ eq_refl) as [A B].
+    destruct (lookup id (subs s1)); intro H; injection H as <- <-; simpl; rewrite ?forallb_app, A; auto.
+  - destruct (release_ended ks s id) as [s1 o1] eqn:E. destruct (R _ _ eq_refl) as [A B].
+    destruct (lookup id (subs s1)); intro H; injection H as <- <-; simpl; rewrite ?forallb_app, A; auto.
+Qed.
+
+Definition answers_ping (pc : bool) (p : proto) (f : cframe) : bool :=
+  match p, f with PTws, Msg TPing _ _ => negb pc | _, _ => false end.
+Definition ka (p : proto) : list ev := match p with PWs => [VSend SKa None] | PTws => [] end.
+Definition connerr (p : proto) : list ev := match p with PWs => [VSend SConnError None] | PTws => [] end.
+Definition is_bc (o : list ev) : Prop := o = [] \/ exists c, o = [VBeginClose c].
+
+Inductive hshape (pc ks : bool) (p : proto) (f : cframe) (s s' : st) (o : list ev) : Prop :=
+| hs_quiet : did_init s' = did_init s -> subs s' = subs s -> srcs s' = srcs s -> is_bc o ->
+             answers_ping pc p f = false -> hshape pc ks p f s s' o
+| hs_accept : did_init s' = true -> subs s' = subs s -> srcs s' = srcs s ->
+              o = VInit true :: VSend SAck None :: ka p -> answers_ping pc p f = false -> hshape pc ks p f s s' o
+| hs_reject bc : did_init s' = did_init s -> subs s' = subs s -> srcs s' = srcs s -> is_bc bc ->
+                 o = VInit false :: connerr p ++ bc -> answers_ping pc p f = false -> hshape pc ks p f s s' o
+| hs_pong : did_init s' = did_init s -> subs s' = subs s -> srcs s' = srcs s ->
+            o = [VSend SPong None] -> answers_ping pc p f = true -> hshape pc ks p f s s' o
+| hs_start id d : did_init s = true -> handle_start ks s id d = (s', o) -> answers_ping pc p f = false -> hshape pc ks p f s s' o
+| hs_stop id : did_init s = true -> handle_stop s id = (s', o) -> answers_ping pc p f = false -> hshape pc ks p f s s' o.
+
+Lemma handle_shape pc ks p s f s' o : handle pc ks p s f = (s', o) -> hshape pc ks p f s s' o.
+Proof.
+  assert (BC : forall code s1 o1, begin_closing code s = (s1, o1) ->
+               did_init s1 = did_init s /\ subs s1 = subs s /\ srcs s1 = srcs s /\ is_bc o1).
+  { intros code s1 o1 H. destruct (begin_closing_neutral _ _ _ _ H) as (A & B & _ & D & _ & _ & F).
+    repeat split; auto. destruct F as [->| ->]; [now left|right; eauto]. }
+  destruct p; destruct f as [|ty id pl]; simpl.
+  - intro H. injection H as <- <-. apply hs_quiet; auto; try reflexivity; try congruence. now left.
+  - destruct ty; try (intro H; injection H as <- <-; apply hs_quiet; auto; try reflexivity; try congruence; now left).
+    + destruct (init_ok pl).
+      * intro H. injection H as <- <-. apply hs_accept; auto; reflexivity.
+      * destruct (begin_closing 1011 s) as [s1 o1] eqn:B. intro H. injection H as <- <-.
+        destruct (BC _ _ _ B) as (A1 & A2 & A3 & A4). eapply hs_reject; eauto; reflexivity.
+    + intro H. destruct (BC _ _ _ H) as (A1 & A2 & A3 & A4). apply hs_quiet; auto; try reflexivity; try congruence.
+    + destruct (did_init s) eqn:DI.
+      * destruct (decode_start pl) as [d|].
+        -- intro H. eapply hs_start; eauto; reflexivity.
+        -- intro H. injection H as <- <-. apply hs_quiet; auto; try reflexivity; try congruence. now left.
+      * intro H. injection H as <- <-. apply hs_quiet; auto; try reflexivity; try congruence. now left.
+    + destruct (did_init s) eqn:DI.
+      * intro H. eapply hs_stop; eauto; reflexivity.
+      * intro H. injection H as <- <-. apply hs_quiet; auto; try reflexivity; try congruence. now left.
+  - intro H. destruct (BC _ _ _ H) as (A1 & A2 & A3 & A4). apply hs_quiet; auto; try reflexivity; try congruence.
+  - destruct ty; try (intro H; destruct (BC _ _ _ H) as (A1 & A2 & A3 & A4); apply hs_quiet; auto; try reflexivity; try congruence).
+    + destruct (init_ok pl).
+      * intro H. injection H as <- <-. apply hs_accept; auto; reflexivity.
+      * destruct (begin_closing 4403 s) as [s1 o1] eqn:B. intro H. injection H as <- <-.
+        destruct (BC _ _ _ B) as (A1 & A2 & A3 & A4). eapply hs_reject; eauto; reflexivity.
+    + destruct (did_init s) eqn:DI.
+      * destruct (decode_start pl) as [d|].
+        -- intro H. eapply hs_start; eauto; reflexivity.
+        -- intro H. destruct (BC _ _ _ H) as (A1 & A2 & A3 & A4). apply hs_quiet; auto; try reflexivity; try congruence.
+      * intro H. injection H as <- <-. apply hs_quiet; auto; try reflexivity; try congruence. now left.
+    + destruct (did_init s) eqn:DI.
+      * intro H. eapply hs_stop; eauto; reflexivity.
+      * intro H. injection H as <- <-. apply hs_quiet; auto; try reflexivity; try congruence. now left.
+    + destruct pc.
+      * intro H. destruct (BC _ _ _ H) as (A1 & A2 & A3 & A4). apply hs_quiet; auto; try reflexivity; try congruence.
+      * intro H. injection H as <- <-. apply hs_pong; auto; reflexivity.
+    + intro H. injection H as <- <-. apply hs_quiet; auto; try reflexivity; try congruence. now left.
+Qed.
+
+(** ** connection-level rules: R1-R4 and the owners of frames *)
+Lemma chk_acks_app t : forall k o, chk_acks k t = true -> chk_acks 0 o = true -> chk_acks k (t ++ o) = true.
+Proof.
+  induction t as [|e t IH]; intros k o H Ho; simpl in *.
+  - apply Nat.eqb_eq in H. now subst.
+  - destruct e as [f|f ow|b|n i d|n|n|n|n|n|z| |]; auto.
+    + destruct f; auto. destruct k; [discriminate|auto].
+    + destruct b; auto.
+Qed.
+Lemma chk_pongs_app p t : forall k o, chk_pongs p k t = true -> chk_pongs p 0 o = true -> chk_pongs p k (t ++ o) = true.
+Proof.
+  induction t as [|e t IH]; intros k o H Ho; simpl in *.
+  - apply Nat.eqb_eq in H. now subst.
+  - destruct (is_ping p e); [auto|]. destruct (is_pong e); [|auto]. destruct k; [discriminate|auto].
+Qed.
+
+Lemma opish_acks o : forallb opish o = true -> chk_acks 0 o = true.
+Proof.
+  induction o as [|e o IH]; simpl; [reflexivity|]. intro H. apply andb_true_iff in H as [H1 H2].
+  destruct e as [f|f ow|b|n i d|n|n|n|n|n|z| |]; simpl in H1; try discriminate; auto.
+  destruct f; try discriminate; auto.
+Qed.
+Lemma opish_pongs p o : forallb opish o = true -> chk_pongs p 0 o = true.
+Proof.
+  induction o as [|e o IH]; simpl; [reflexivity|]. intro H. apply andb_true_iff in H as [H1 H2].
+  destruct e as [f|f ow|b|n i d|n|n|n|n|n|z| |]; simpl in H1; try discriminate;
+    try (destruct p; simpl; auto; fail).
+  destruct f; try discriminate; destruct p; simpl; auto.
+Qed.
+Lemma opish_wo o : forallb opish o = true -> forallb well_owned o = true.
+Proof.
+  intro H. apply forallb_forall. intros e He. apply (proj1 (forallb_forall _ _) H) in He.
+  destruct e as [f|f [k|]|b|n i d|n|n|n|n|n|z| |]; simpl in *; try discriminate; auto; destruct f; try discriminate; auto.
+Qed.
+Lemma opish_op o : forallb opish o = true -> forallb is_op_event o = true.
+Proof.
+  intro H. apply forallb_forall. intros e He. apply (proj1 (forallb_forall _ _) H) in He.
+  destruct e as [f|f [k|]|b|n i d|n|n|n|n|n|z| |]; simpl in *; try discriminate; auto; destruct f; try discriminate; auto.
+Qed.
+Lemma chk_ack_first_after p a b : chk_ack_first p a = true -> In SAck a -> chk_ack_first p (a ++ b) = true.
+Proof.
+  induction a as [|f a IH]; simpl; [intros _ []|]. intros H [->|Hin]; [reflexivity|].
+  destruct f; auto; simpl in *; try discriminate;
+    try (apply andb_true_iff in H as [H1 H2]; rewrite H1; simpl; auto).
+Qed.
+Lemma chk_ack_first_before p a b : forallb (pre_ack_ok p) a = true -> chk_ack_first p (a ++ b) = chk_ack_first p b.
+Proof.
+  induction a as [|f a IH]; simpl; [reflexivity|]. intro H. apply andb_true_iff in H as [H1 H2].
+  destruct f; simpl in H1; try discriminate; [|destruct p; try discriminate]; simpl; auto.
+Qed.
+Definition is_ack_ev (e : ev) : bool := match e with VSend SAck _ => true | _ => false end.
+Lemma chk_noop_after a b : chk_no_op_before_ack a = true -> existsb is_ack_ev a = true -> chk_no_op_before_ack (a ++ b) = true.
+Proof.
+  induction a as [|e a IH]; simpl; [discriminate|]. intros H X.
+  destruct e as [f|f ow|bb|n i d|n|n|n|n|n|z| |]; simpl in *; try discriminate; auto.
+  destruct f; simpl in *; try discriminate; auto.
+Qed.
+Lemma chk_noop_before a b : forallb (fun e => negb (is_op_event e) && negb (is_ack_ev e)) a = true ->
+  chk_no_op_before_ack (a ++ b) = chk_no_op_before_ack b.
+Proof.
+  induction a as [|e a IH]; simpl; [reflexivity|]. intro H. apply andb_true_iff in H as [H1 H2].
+  destruct e as [f|f ow|bb|n i d|n|n|n|n|n|z| |]; simpl in *; try discriminate; auto.
+  destruct f; simpl in *; try discriminate; auto.
+Qed.
+
+Definition AckInv (p : proto) (s : st) (t : list ev) : Prop :=
+  if did_init s then
+    In SAck (frames t) /\ chk_ack_first p (frames t) = true /\
+    existsb is_ack_ev t = true /\ chk_no_op_before_ack t = true
+  else
+    forallb (pre_ack_ok p) (frames t) = true /\
+    forallb (fun e => negb (is_op_event e) && negb (is_ack_ev e)) t = true /\
+    srcs s = [] /\ subs s = [].
+
+Record ConnInv (p : proto) (s : st) (t : list ev) : Prop := {
+  c_wo : forallb well_owned t = true;
+  c_acks : chk_acks 0 t = true;
+  c_pongs : chk_pongs p 0 t = true;
+  c_ack : AckInv p s t
+}.
+
+Lemma is_ping_answers p f : is_ping p (VRecv f) = answers_ping false p f.
+Proof. destruct p, f as [|[] ? ?]; reflexivity. Qed.
+
+Section Conn.
+  Variable ks : bool.
+  Variable p : proto.
+
+  (** what one step appends, reduced to the four facts the connection-level rules need *)
+  Lemma step_conn s l s' o :
+    step false ks p s l = (s', o) ->
+    forallb well_owned o = true /\ chk_acks 0 o = true /\ chk_pongs p 0 o = true /\
+    (if did_init s then
+       did_init s' = true
+     else
+       if did_init s' then
+         subs s' = [] -> exists pre post, o = pre ++ VSend SAck None :: post /\
+           forallb (pre_ack_ok p) (frames pre) = true /\ forallb (fun e => negb (is_op_event e) && negb (is_ack_ev e)) pre = true /\
+           forallb (fun e => negb (is_op_event e)) post = true /\ chk_ack_first p (frames (VSend SAck None :: post)) = true
+       else
+         (srcs s = [] -> subs s = [] ->
+          forallb (pre_ack_ok p) (frames o) = true /\
+          forallb (fun e => negb (is_op_event e) && negb (is_ack_ev e)) o = true /\ srcs s' = [] /\ subs s' = [])).
+  Proof.
+    unfold step. destruct (react false ks p s l) as [s1 o1] eqn:Re. intro H. injection H as <- <-.
+    change (did_init (tick s1)) with (did_init s1). change (subs (tick s1)) with (subs s1). change (srcs (tick s1)) with (srcs s1).
+    unfold react in Re. destruct (closed s).
+    { injection Re as <- <-. repeat split; auto. destruct (did_init s); auto. }
+    destruct l as [f|n|n|e].
+    - destruct (handle false ks p s f) as [s2 o2] eqn:H. injection Re as <- <-.
+      destruct (handle_shape _ _ _ _ _ _ _ H) as [A B C D E|A B C D E|bc A B C D E F|A B C D E|id d A B C|id A B C].
+      + (* quiet *)
+        assert (X : o2 = [] \/ exists c, o2 = [VBeginClose c]) by exact D.
+        rewrite A, B, C. split; [|split; [|split]].
+        * destruct X as [->|(c & ->)]; reflexivity.
+        * destruct X as [->|(c & ->)]; reflexivity.
+        * simpl. rewrite is_ping_answers, E. destruct X as [->|(c & ->)]; destruct p; reflexivity.
+        * destruct (did_init s); [reflexivity|]. intros S1 S2. destruct X as [->|(c & ->)]; auto.
+      + (* accepted init *)
+        subst o2. rewrite A. split; [|split; [|split]].
+        * destruct p; reflexivity.
+        * destruct p; reflexivity.
+        * simpl. rewrite is_ping_answers, E. destruct p; reflexivity.
+        * destruct (did_init s); [reflexivity|]. intros _.
+          exists [VRecv f; VInit true], (ka p). repeat split; destruct p; reflexivity.
+      + (* rejected init *)
+        subst o2. rewrite A, B, C. assert (X : bc = [] \/ exists c, bc = [VBeginClose c]) by exact D.
+        split; [|split; [|split]].
+        * destruct p, X as [->|(c & ->)]; reflexivity.
+        * destruct p, X as [->|(c & ->)]; reflexivity.
+        * simpl. rewrite is_ping_answers, F. destruct p, X as [->|(c & ->)]; reflexivity.
+        * destruct (did_init s); [reflexivity|]. intros S1 S2. destruct p, X as [->|(c & ->)]; auto.
+      + (* ping answered *)
+        subst o2. rewrite A, B, C.
+        destruct p; [destruct f as [|[] ? ?]; discriminate|].
+        split; [|split; [|split]]; try reflexivity.
+        * cbn [chk_pongs]. rewrite is_ping_answers, E. reflexivity.
+        * destruct (did_init s); [reflexivity|]. intros S1 S2. auto.
+      + (* HandleStart *)
+        destruct (handle_start_opish _ _ _ _ _ _ B) as [Op DI]. rewrite DI, A. split; [|split; [|split]]; auto.
+        * simpl. now apply opish_wo.
+        * simpl. now apply opish_acks.
+        * simpl. rewrite is_ping_answers, C. now apply opish_pongs.
+      + (* HandleStop *)
+        destruct (handle_stop_opish _ _ _ _ B) as [Op DI]. rewrite DI, A. split; [|split; [|split]]; auto.
+        * simpl. now apply opish_wo.
+        * simpl. now apply opish_acks.
+        * simpl. rewrite is_ping_answers, C. now apply opish_pongs.
+    - destruct (emit_src n (srcs s)) as [r o2] eqn:E. injection Re as <- <-. simpl.
+      pose proof (emit_src_opish _ _ _ _ E) as Op. split; [now apply opish_wo|]. split; [now apply opish_acks|].
+      split; [now apply opish_pongs|]. destruct (did_init s); [reflexivity|]. intros S1 S2. rewrite S1 in E. injection E as <- <-. auto.
+    - destruct (end_src n (srcs s)) as [r o2] eqn:E. injection Re as <- <-. simpl.
+      pose proof (end_src_opish _ _ _ _ E) as Op. split; [now apply opish_wo|]. split; [now apply opish_acks|].
+      split; [now apply opish_pongs|]. destruct (did_init s); [reflexivity|]. intros S1 S2. rewrite S1 in E. injection E as <- <-. auto.
+    - destruct (begin_closing (end_code e) s) as [s2 o2] eqn:B.
+      destruct (begin_closing_neutral _ _ _ _ B) as (A1 & A2 & A3 & A4 & A5 & A6 & A7).
+      unfold handle_close in Re. rewrite A1, A2 in Re.
+      destruct (stop_all (subs s) (srcs s)) as [l3 o3] eqn:SA. injection Re as <- <-. simpl.
+      pose proof (stop_all_opish _ _ _ _ SA) as Op. rewrite A4.
+      assert (W : forall (P : ev -> bool), P (VBeginClose (end_code e)) = true -> P VGone = true -> P VDeregister = true ->
+                  forallb P o3 = true -> forallb P (o2 ++ VGone :: o3 ++ [VDeregister]) = true).
+      { intros P P1 P2 P3 P4. rewrite forallb_app. simpl. rewrite forallb_app, P2, P4. simpl. rewrite P3.
+        destruct A7 as [->| ->]; simpl; rewrite ?P1; reflexivity. }
+      split; [apply W; auto; now apply opish_wo|].
+      split.
+      { apply (chk_acks_app o2); [destruct A7 as [->| ->]; reflexivity|]. simpl.
+        apply (chk_acks_app o3); [now apply opish_acks|reflexivity]. }
+      split.
+      { apply (chk_pongs_app p o2); [destruct A7 as [->| ->]; destruct p; reflexivity|].
+        change (VGone :: o3 ++ [VDeregister]) with ([VGone] ++ o3 ++ [VDeregister]).
+        apply (chk_pongs_app p [VGone]); [destruct p; reflexivity|].
+        apply (chk_pongs_app p o3); [now apply opish_pongs|destruct p; reflexivity]. }
+      destruct (did_init s); [reflexivity|]. intros S1 S2. rewrite S1, S2 in SA. simpl in SA. injection SA as <- <-.
+      destruct A7 as [->| ->]; auto.
+  Qed.
+
+  Theorem reach_conn s t : reach false ks p s t -> ConnInv p s t.
+  Proof.
+    induction 1 as [|s t l s' o R [W A P K] St].
+    - constructor; try reflexivity. unfold AckInv. simpl. auto.
+    - destruct (step_conn _ _ _ _ St) as (W' & A' & P' & K').
+      constructor.
+      + now rewrite forallb_app, W, W'.
+      + now apply chk_acks_app.
+      + now apply chk_pongs_app.
+      + unfold AckInv in *. destruct (did_init s) eqn:DI.
+        * rewrite K'. destruct K as (K1 & K2 & K3 & K4). rewrite frames_app. repeat split.
+          -- apply in_or_app. now left.
+          -- now apply chk_ack_first_after.
+          -- rewrite existsb_app, K3. reflexivity.
+          -- now apply chk_noop_after.
+        * destruct K as (K1 & K2 & K3 & K4). destruct (did_init s').
+          -- assert (S' : subs s' = []).
+             { (* the step that accepts an init does not touch the map *)
+               unfold step in St. destruct (react false ks p s l) as [s1 o1] eqn:Re. injection St as <- <-.
+               change (subs (tick s1)) with (subs s1). clear K'.
+               revert Re. unfold react. destruct (closed s); [intro X; injection X as <- <-; exact K4|].
+               destruct l as [f|n|n|e].
+               - destruct (handle false ks p s f) as [s2 o2] eqn:H. intro X. injection X as <- <-.
+                 destruct (handle_shape _ _ _ _ _ _ _ H) as [? B ? ? ?|? B ? ? ?|bc ? B ? ? ? ?|? B ? ? ?|id d A0 B ?|id A0 B ?]; congruence.
+               - destruct (emit_src n (srcs s)). intro X. injection X as <- <-. exact K4.
+               - destruct (end_src n (srcs s)). intro X. injection X as <- <-. exact K4.
+               - destruct (begin_closing (end_code e) s) as [s2 o2]. unfold handle_close.
+                 destruct (stop_all (subs s2) (srcs s2)). intro X. injection X as <- <-. reflexivity. }
+             destruct (K' S') as (pre & post & -> & Q1 & Q2 & Q3 & Q4).
+             rewrite !frames_app. repeat split.
+             ++ apply in_or_app. right. apply in_or_app. right. simpl. now left.
+             ++ rewrite chk_ack_first_before by exact K1. rewrite chk_ack_first_before by exact Q1. exact Q4.
+             ++ rewrite !existsb_app. simpl. now rewrite !orb_true_r.
+             ++ rewrite chk_noop_before by exact K2. rewrite chk_noop_before by exact Q2. reflexivity.
+          -- destruct (K' K3 K4) as (Q1 & Q2 & Q3 & Q4). rewrite frames_app, !forallb_app, K1, K2, Q1, Q2. auto.
+  Qed.
+End Conn.
+
+(** ** R6: no subscription start is dropped (current code, [keep_stale = false]) *)
+Definition IgnInv (t : list ev) : Prop :=
+  forall pre e post n id d, t = pre ++ e :: post -> e = VStart n id d -> is_sublike d = true ->
+    busy id pre = true \/ served n t = true.
+
+Lemma served_app n a b : served n (a ++ b) = served n a || served n b.
+Proof. unfold served. apply existsb_app. Qed.
+
+Lemma chk_ignored_from_spec a whole : forall t pre0,
+  (forall t1 e t2 id, t = t1 ++ e :: t2 -> ignored_start whole e = Some id -> busy id (pre0 ++ t1) = true) ->
+  chk_ignored_from a whole pre0 t = true.
+Proof.
+  induction t as [|e t IH]; intros pre0 H; simpl; [reflexivity|].
+  apply andb_true_iff. split.
+  - destruct (ignored_start whole e) as [id|] eqn:E; [|reflexivity].
+    rewrite <- (app_nil_r pre0). rewrite (H [] e t id eq_refl E). reflexivity.
+  - apply IH. intros t1 e' t2 id Et Ig. rewrite <- app_assoc. simpl.
+    apply (H (e :: t1) e' t2 id); [simpl; now rewrite Et|exact Ig].
+Qed.
+
+Lemma ign_chk a t : IgnInv t -> chk_ignored a t = true.
+Proof.
+  intro I. unfold chk_ignored. apply chk_ignored_from_spec. intros t1 e t2 id Et Ig. simpl.
+  unfold ignored_start in Ig. destruct e as [f|f ow|b|n i d|n|n|n|n|n|z| |]; try discriminate.
+  destruct (is_sublike d) eqn:Sl; [|discriminate]. destruct (served n t) eqn:Sv; [discriminate|].
+  simpl in Ig. injection Ig as ->.
+  destruct (I t1 _ t2 n id d Et eq_refl Sl) as [B|S]; [exact B|congruence].
+Qed.
+
+Lemma no_complete_in_evs id n k : existsb (fun f => match f with SComplete _ => true | _ => false end) (evs id n k) = false.
+Proof. induction k as [|k IH]; [reflexivity|]. simpl. rewrite existsb_app, IH. reflexivity. Qed.
+
+Lemma complete_of_owned k t :
+  existsb (is_complete_of k) t = existsb (fun f => match f with SComplete _ => true | _ => false end) (owned k t).
+Proof.
+  induction t as [|e t IH]; [reflexivity|]. simpl. unfold owned in *. simpl. rewrite existsb_app, <- IH.
+  f_equal. destruct e as [f|f [m|]|b|n i d|n|n|n|n|n|z| |]; simpl; try reflexivity.
+  - destruct (Nat.eqb m k); destruct f; reflexivity.
+  - destruct f; reflexivity.
+Qed.
+
+Lemma busy_of_live c m l t x :
+  InvC c m l t -> In x l -> live x = true -> busy (s_id x) t = true.
+Proof.
+  intros I Hx Lv. destruct (i_src _ _ _ _ I x Hx) as (A & B & V). unfold view in V.
+  injection V as _ _ E3 _ _ _ Ow. unfold busy. apply existsb_exists.
+  exists (VStart (s_op x) (s_id x) DSub). split; [exact A|]. rewrite N.eqb_refl. simpl.
+  rewrite existsb_count, E3. simpl. rewrite complete_of_owned, Ow. unfold tail_of. rewrite Lv, app_nil_r.
+  now rewrite no_complete_in_evs.
+Qed.
+
+Lemma handle_stop_nostart s id s' o : handle_stop s id = (s', o) -> forall e n i d, In e o -> e <> VStart n i d.
+Proof.
+  intros H e n i d He ->. unfold handle_stop in H. destruct (lookup id (subs s)).
+  - destruct (stop_src n0 (srcs s)) as [l o'] eqn:S. injection H as <- <-.
+    destruct (stop_src_out _ _ _ _ S) as (A & _). apply (proj1 (forallb_forall _ _) A) in He. discriminate.
+  - injection H as <- <-. destruct He.
+Qed.
+
+Lemma handle_start_served_or_busy c s id d s' o t :
+  InvC c (subs s) (srcs s) t -> handle_start false s id d = (s', o) -> is_sublike d = true ->
+  exists o', o = VStart (clock s) id d :: o' /\ (forall e n i d', In e o' -> e <> VStart n i d') /\
+             (served (clock s) o' = true \/ busy id t = true).
+Proof.
+  intros I H Sl.
+  assert (R : forall s1 o1, release_ended false s id = (s1, o1) ->
+              (forall e n i d', In e o1 -> e <> VStart n i d') /\
+              (forall k, lookup id (subs s1) = Some k -> busy id t = true)).
+  { intros s1 o1 E. destruct (release_ended_cases _ _ _ _ _ E) as [[-> ->]|(HS & LN & _)].
+    - split; [intros e n i d' []|]. intros k L.
+      unfold release_ended in E. rewrite L in E. rewrite andb_true_r in E.
+      destruct (src_ended k (srcs s)) eqn:SE.
+      + exfalso. destruct (stop_src k (srcs s)) as [l' o'] eqn:S. injection E as E _.
+        apply (f_equal subs) in E. simpl in E.
+        destruct (lookup_some _ _ _ L) as (m1 & m2 & Em & Hm1).
+        rewrite Em in E at 1. rewrite remove_id_split in E; [|exact Hm1|rewrite <- Em; exact (i_keys _ _ _ _ I)].
+        rewrite Em in E. apply (f_equal (@List.length _)) in E. rewrite !app_length in E. simpl in E. lia.
+      + destruct (lookup_some _ _ _ L) as (m1 & m2 & Em & _).
+        destruct (i_subs _ _ _ _ I id k) as (x & Hx & Ex & Eid & Est); [rewrite Em; apply in_or_app; right; now left|].
+        rewrite <- Eid. eapply busy_of_live; eauto. unfold live. rewrite Est. simpl.
+        destruct (s_ended x) eqn:En; [|reflexivity]. exfalso.
+        assert (src_ended k (srcs s) = true); [|congruence].
+        unfold src_ended. apply existsb_exists. exists x. split; [exact Hx|]. rewrite Ex, Nat.eqb_refl, En. reflexivity.
+    - split; [intros e n i d'; eapply handle_stop_nostart; eauto|]. intros k L. congruence. }
+  unfold handle_start in H. destruct d; try discriminate.
+  - destruct (release_ended false s id) as [s1 o1] eqn:E. destruct (R _ _ eq_refl) as [R1 R2].
+    destruct (lookup id (subs s1)) as [k|] eqn:L; injection H as <- <-.
+    + exists o1. split; [reflexivity|]. split; [exact R1|]. right. eapply R2. reflexivity.
+    + exists (o1 ++ [VSubscribe (clock s)]). split; [reflexivity|]. split.
+      * intros e n i d' He. apply in_app_or in He as [He|[<-|[]]]; [now apply R1|discriminate].
+      * left. rewrite served_app. unfold served at 2. simpl. rewrite Nat.eqb_refl. apply orb_true_r.
+  - destruct (release_ended false s id) as [s1 o1] eqn:E. destruct (R _ _ eq_refl) as [R1 R2].
+    destruct (lookup id (subs s1)) as [k|] eqn:L; injection H as <- <-.
+    + exists o1. split; [reflexivity|]. split; [exact R1|]. right. eapply R2. reflexivity.
+    + exists (o1 ++ VSubFail (clock s) :: answer (clock s) id CErr). split; [reflexivity|]. split.
+      * intros e n i d' He. apply in_app_or in He as [He|[<-|[<-|[<-|[]]]]]; try discriminate. now apply R1.
+      * left. rewrite served_app. unfold served at 2. simpl. rewrite Nat.eqb_refl. simpl. apply orb_true_r.
+Qed.
+
+Lemma app_split {A} (t o pre post : list A) e :
+  t ++ o = pre ++ e :: post ->
+  (exists post', t = pre ++ e :: post' /\ post = post' ++ o) \/
+  (exists o_pre, pre = t ++ o_pre /\ o = o_pre ++ e :: post).
+Proof.
+  revert pre. induction t as [|x t IH]; intros pre H; simpl in *.
+  - right. exists pre. auto.
+  - destruct pre as [|y pre]; simpl in H.
+    + injection H as -> <-. left. exists t. auto.
+    + injection H as -> H. destruct (IH _ H) as [(post' & -> & ->)|(o_pre & -> & ->)].
+      * left. exists post'. auto.
+      * right. exists o_pre. auto.
+Qed.
+
+Lemma emit_src_nostart n l r o : emit_src n l = (r, o) -> forall e k i d, In e o -> e <> VStart k i d.
+Proof.
+  intros H e k i d He ->. destruct (op_dec n l) as [Ex|Nx].
+  - destruct (emit_src_some n l Ex) as (l1 & x & l2 & _ & _ & _ & E'). rewrite H in E'.
+    destruct (live x); injection E' as _ ->; [destruct He as [X|[]]; discriminate|destruct He].
+  - rewrite (emit_src_none n l Nx) in H. injection H as _ <-. destruct He.
+Qed.
+Lemma end_src_nostart n l r o : end_src n l = (r, o) -> forall e k i d, In e o -> e <> VStart k i d.
+Proof.
+  intros H e k i d He ->. destruct (op_dec n l) as [Ex|Nx].
+  - destruct (end_src_some n l Ex) as (l1 & x & l2 & _ & _ & _ & E'). rewrite H in E'.
+    destruct (s_ended x); injection E' as _ ->; [destruct He|].
+    destruct He as [X|He]; [discriminate|]. unfold complete_if_live in He. destruct (live x); [|destruct He].
+    destruct He as [X|[]]. discriminate.
+  - rewrite (end_src_none n l Nx) in H. injection H as _ <-. destruct He.
+Qed.
+
+Section Ign.
+  Variable p : proto.
+
+  Lemma step_starts s t l s' o :
+    Inv s t -> step false false p s l = (s', o) ->
+    (forall e n i d, In e o -> e <> VStart n i d) \/
+    (exists f id d o', o = VRecv f :: VStart (clock s) id d :: o' /\
+       (forall e n i d', In e o' -> e <> VStart n i d') /\
+       (is_sublike d = true -> served (clock s) o' = true \/ busy id (t ++ [VRecv f]) = true)).
+  Proof.
+    intros I St. unfold step in St. destruct (react false false p s l) as [s1 o1] eqn:Re. injection St as _ <-.
+    unfold react in Re. destruct (closed s).
+    { injection Re as _ <-. left. intros e n i d []. }
+    destruct l as [f|n|n|e].
+    - destruct (handle false false p s f) as [s2 o2] eqn:H. injection Re as _ <-.
+      destruct (handle_shape _ _ _ _ _ _ _ H) as [A B C D E|A B C D E|bc A B C D E F|A B C D E|id d A B C|id A B C].
+      + left. intros e n i d [<-|He]; [discriminate|]. destruct D as [->|(c & ->)]; [destruct He|].
+        destruct He as [<-|[]]. discriminate.
+      + left. subst o2. intros e n i d He. destruct p; simpl in He; intuition (subst; discriminate).
+      + left. subst o2. intros e n i d He. destruct D as [->|(c & ->)]; destruct p; simpl in He; intuition (subst; discriminate).
+      + left. subst o2. intros e n i d He. simpl in He. intuition (subst; discriminate).
+      + right. exists f, id, d.
+        assert (I' : InvC (clock s) (subs s) (srcs s) (t ++ [VRecv f])).
+        { apply inv_neutral; [exact I|]. intros e [<-|[]]. reflexivity. }
+        destruct (is_sublike d) eqn:Sl.
+        * destruct (handle_start_served_or_busy _ _ _ _ _ _ _ I' B Sl) as (o' & -> & N & SB).
+          exists o'. split; [reflexivity|]. split; [exact N|]. intros _. exact SB.
+        * unfold handle_start in B. destruct d; try discriminate; injection B as _ <-;
+            eexists; (split; [reflexivity|]); (split; [|discriminate]);
+            intros e n i d' He; simpl in He; intuition (subst; discriminate).
+      + left. intros e n i d [<-|He]; [discriminate|]. eapply handle_stop_nostart; eauto.
+    - destruct (emit_src n (srcs s)) as [r o2] eqn:E. injection Re as _ <-. left. intros e k i d. eapply emit_src_nostart; eauto.
+    - destruct (end_src n (srcs s)) as [r o2] eqn:E. injection Re as _ <-. left. intros e k i d. eapply end_src_nostart; eauto.
+    - destruct (begin_closing (end_code e) s) as [s2 o2] eqn:B.
+      destruct (begin_closing_neutral _ _ _ _ B) as (A1 & A2 & _ & _ & _ & _ & A7).
+      unfold handle_close in Re. destruct (stop_all (subs s2) (srcs s2)) as [l3 o3] eqn:SA. injection Re as _ <-.
+      destruct (stop_all_out _ _ _ _ SA) as (X1 & _). left. intros e0 n i d He ->.
+      apply in_app_or in He as [He|[He|He]].
+      + destruct A7 as [->| ->]; [destruct He|destruct He as [X|[]]; discriminate].
+      + discriminate.
+      + apply in_app_or in He as [He|[He|[]]]; [|discriminate].
+        apply (proj1 (forallb_forall _ _) X1) in He. discriminate.
+  Qed.
+
+  Theorem reach_ign s t : reach false false p s t -> IgnInv t.
+  Proof.
+    induction 1 as [|s t l s' o R IH St].
+    - intros pre e post n id d H. destruct pre; discriminate.
+    - pose proof (reach_inv _ _ _ _ _ R) as [I _].
+      intros pre e post n id d H -> Sl.
+      destruct (app_split _ _ _ _ _ H) as [(post' & Et & ->)|(o_pre & -> & Eo)].
+      + destruct (IH _ _ _ n id d Et eq_refl Sl) as [B|S]; [now left|]. right. rewrite served_app, S. reflexivity.
+      + destruct (step_starts _ _ _ _ _ I St) as [N|(f & id' & d' & o' & -> & N & SB)].
+        * exfalso. apply (N (VStart n id d) n id d); [|reflexivity]. rewrite Eo. apply in_or_app. right. now left.
+        * destruct o_pre as [|x o_pre]; [discriminate|]. injection Eo as Ex Eo. subst x.
+          destruct o_pre as [|y o_pre].
+          -- simpl in Eo. injection Eo as En Eid Ed Eo'. subst n id' d' o'. destruct (SB Sl) as [S|B]; [|now left].
+             right. rewrite served_app. unfold served at 2. simpl. unfold served in S. rewrite S. apply orb_true_r.
+          -- injection Eo as _ Eo. exfalso. apply (N (VStart n id d) n id d); [|reflexivity].
+             rewrite Eo. apply in_or_app. right. now left.
+  Qed.
+End Ign.
+
+(** ** every trace of the model satisfies every rule of the Spec *)
+Section Verdict.
+  Variable p : proto.
+
+  Lemma ackinv_first s t : AckInv p s t -> chk_ack_first p (frames t) = true /\ chk_no_op_before_ack t = true.
+  Proof.
+    unfold AckInv. destruct (did_init s).
+    - intros (_ & A & _ & B). auto.
+    - intros (A & B & _ & _). split.
+      + rewrite <- (app_nil_r (frames t)). now rewrite chk_ack_first_before.
+      + rewrite <- (app_nil_r t). now rewrite chk_noop_before.
+  Qed.
+
+  Theorem ack_first_all ls : chk_ack_first p (frames (trace false false p ls)) = true.
+  Proof. destruct (reach_conn false p _ _ (run_reach false false p ls)) as [_ _ _ K]. now apply ackinv_first in K. Qed.
+  Theorem no_op_before_ack_all ls : chk_no_op_before_ack (trace false false p ls) = true.
+  Proof. destruct (reach_conn false p _ _ (run_reach false false p ls)) as [_ _ _ K]. now apply ackinv_first in K. Qed.
+  Theorem acks_all ls : chk_acks 0 (trace false false p ls) = true.
+  Proof. now destruct (reach_conn false p _ _ (run_reach false false p ls)). Qed.
+  Theorem pongs_all ls : chk_pongs p 0 (trace false false p ls) = true.
+  Proof. now destruct (reach_conn false p _ _ (run_reach false false p ls)). Qed.
+  Theorem ops_all ls : chk_ops (trace false false p ls) = true.
+  Proof.
+    destruct (reach_inv _ _ _ _ _ (run_reach false false p ls)) as [I _].
+    destruct (reach_conn false p _ _ (run_reach false false p ls)) as [W _ _ _].
+    eapply inv_chk_ops; eauto.
+  Qed.
+  Theorem ignored_all a ls : chk_ignored a (trace false false p ls) = true.
+  Proof. apply ign_chk. eapply reach_ign. apply run_reach. Qed.
+  Theorem stops_all ls : chk_stops (trace false false p ls) = true.
+  Proof. destruct (reach_inv _ _ _ _ _ (run_reach false false p ls)) as [I C]. eapply inv_chk_stops; eauto. Qed.
+  Theorem dereg_all ls : chk_dereg (trace false false p ls) = true.
+  Proof. destruct (reach_inv _ _ _ _ _ (run_reach false false p ls)) as [I C]. eapply inv_chk_dereg; eauto. Qed.
+
+  Theorem model_meets_spec ls : spec_verdict p (trace false false p ls) = None.
+  Proof.
+    unfold spec_verdict.
+    rewrite ack_first_all, no_op_before_ack_all, acks_all, pongs_all, ops_all, !ignored_all, stops_all, dereg_all.
+    reflexivity.
+  Qed.
+End Verdict.
